@@ -392,7 +392,7 @@ def strip_secmod(tree):
 
 def run(tier, seed, bindirs):
     t0 = time.time()
-    res = core.explore('checks.c11', gen(tier, seed), bindirs, chunk=20, opts={'solo_timeout': 15, 'timeout': 120})
+    res = core.explore('checks.c11', gen(tier, seed), bindirs, chunk=20, opts={'solo_timeout': 90, 'timeout': 900})
     lookups = res.extra.get('resolving_lookups', 0) + res.extra.get('nonresolving_lookups', 0)
     trees = res.evaluations
     if not res.extra.get('harness_errors'):
@@ -400,5 +400,5 @@ def run(tier, seed, bindirs):
         res.nontrivial = res.extra.pop('nt_paths', set())
     return core.finish(PROP, tier, seed, 'exploration', res, RULE, t0, floor=100,
                        assumptions=['unspecified and not generated: doubled separators in the middle of a path, a numeric index on a titled section, non-decimal index spellings',
-                                    'a path call that does not return within 15 s when run alone is reported as a hang (violation: the statement demands termination)'],
+                                    'a path call that does not return within 90 s when run alone is reported as a hang (violation: the statement demands termination)'],
                        more={'trees': trees})
